@@ -7,10 +7,12 @@ import (
 	"encoding/hex"
 	"fmt"
 	"os"
+	"runtime"
 	"runtime/debug"
 	"sort"
 	"strings"
 	"testing"
+	"time"
 
 	node_common "github.com/alephium/wormhole-fork/node/pkg/common"
 	gossipv1 "github.com/alephium/wormhole-fork/node/pkg/proto/gossip/v1"
@@ -186,7 +188,9 @@ func TestVerifGossipReplay(t *testing.T) {
 				from := peer.ID(vhStr(e, "peer"))
 				fwd := []interface{}{}
 				verdict, panicked := "", ""
-				func() {
+				done := make(chan struct{})
+				go func() {
+					defer close(done)
 					defer func() {
 						if x := recover(); x != nil {
 							panicked = fmt.Sprintf("%v\n%s", x, debug.Stack())
@@ -221,6 +225,17 @@ func TestVerifGossipReplay(t *testing.T) {
 						}
 					}
 				}()
+				select {
+				case <-done:
+				case <-time.After(10 * time.Second):
+					// the verifier never returned (it needs microseconds): a stalled gossip loop; nothing after this can be trusted
+					buf := make([]byte, 1<<16)
+					buf = buf[:runtime.Stack(buf, true)]
+					tr.Emit(sc.ID, "Stall", st.A, map[string]interface{}{"stacks": string(buf)})
+					tr.Close()
+					fmt.Printf("VERIF-REPLAYED scenarios=%d lines=%d skipped=%d stalled=1\n", len(scs), tr.n, skipped)
+					os.Exit(0)
+				}
 				tr.Emit(sc.ID, st.Ev, st.A, r.state(fwd, verdict, panicked))
 			default:
 				t.Fatalf("unknown event %q", st.Ev)
